@@ -45,6 +45,7 @@ type input struct {
 	Ops   []mutOp `json:"ops,omitempty"`
 	Data  string  `json:"data,omitempty"` // raw: hex
 	Tier  string  `json:"tier,omitempty"` // value generator tier (thorough adds the very large values)
+	Fixed string  `json:"fixed,omitempty"` // a named hand-written value of the codec instead of a generated one (corpus witnesses)
 }
 
 // codec describes one encode/decode pair of the implementation.
@@ -62,6 +63,8 @@ type codec struct {
 	payload func(v any, hasV bool, data []byte, res any, resOK, same bool) string
 	// rawHint produces a plausible frame start for the raw mode (may be nil).
 	rawHint func(r *rand.Rand) []byte
+	// fixed holds named hand-written values (corpus witnesses independent of the generator).
+	fixed map[string]any
 }
 
 // tier of the run ("quick" leaves out the few-hundred-kilobyte values)
@@ -158,6 +161,9 @@ func genOps(r *rand.Rand, n int) []mutOp {
 		case 6:
 			ops = append(ops, mutOp{Pos: pos, Kind: "del"})
 		default:
+			if n > 0 && vh.Chance(r, 0.5) {
+				pos = r.IntN(min(n, 5)) // the frame's first count
+			}
 			ops = append(ops, mutOp{Pos: pos, Kind: "big", Val: bigVals[r.IntN(len(bigVals))]})
 		}
 	}
@@ -203,7 +209,13 @@ func gen(r *rand.Rand, tier string, i int) input {
 		in.Mode = "raw"
 		in.Seed = 0
 		var data []byte
-		if c.rawHint != nil && vh.Chance(r, 0.6) {
+		if c.rawHint != nil && vh.Chance(r, 0.3) {
+			// a plausible frame start, then an inflated declared count / length, then noise
+			h := c.rawHint(r)
+			var buf [10]byte
+			k := putUvarint(buf[:], bigVals[r.IntN(len(bigVals))])
+			data = append(append(h[:r.IntN(len(h)+1)], buf[:k]...), vh.Bytes(r, r.IntN(24))...)
+		} else if c.rawHint != nil && vh.Chance(r, 0.7) {
 			data = append(c.rawHint(r), vh.Bytes(r, r.IntN(40))...)
 		} else {
 			data = vh.Bytes(r, r.IntN(48))
@@ -259,7 +271,15 @@ func run(in input) vh.Result {
 	)
 	if in.Mode != "raw" {
 		genTier = in.Tier
-		v, vclass = c.gen(rand.New(rand.NewPCG(in.Seed, 27)))
+		if in.Fixed != "" {
+			fv, ok := c.fixed[in.Fixed]
+			if !ok {
+				panic("unknown fixed value " + in.Fixed)
+			}
+			v, vclass = fv, "fixed-"+in.Fixed
+		} else {
+			v, vclass = c.gen(rand.New(rand.NewPCG(in.Seed, 27)))
+		}
 		enc, encOK = c.enc(v)
 	}
 	switch in.Mode {
